@@ -340,6 +340,33 @@ func runC14(c *Collector, r *Rng, thorough bool) {
 	// coordinate has no significant byte at all), on the three curves; p = 3 mod 4 for all of them
 	for _, ci := range curves {
 		prm := ci.curve.Params()
+		// ... and valid points whose x (or y) lies between the group order n and the field prime p: coordinates are field
+		// elements, bounded by p, not scalars bounded by n
+		foundHigh := 0
+		for off := int64(0); off < 64 && foundHigh < 3; off++ {
+			x := new(big.Int).Add(prm.N, big.NewInt(off))
+			if x.Cmp(prm.P) >= 0 {
+				break
+			}
+			rhs := new(big.Int).Exp(x, big.NewInt(3), prm.P)
+			rhs.Sub(rhs, new(big.Int).Mul(big.NewInt(3), x))
+			rhs.Add(rhs, prm.B)
+			rhs.Mod(rhs, prm.P)
+			y := new(big.Int).ModSqrt(rhs, prm.P)
+			if y == nil || !ci.curve.IsOnCurve(x, y) {
+				continue
+			}
+			foundHigh++
+			pub := &ecdsa.PublicKey{Curve: ci.curve, X: x, Y: y}
+			rep := map[string]any{"curve": ci.name, "x": x.String(), "y": y.String()}
+			if pubHalf("x-between-n-and-p/"+ci.name, pub, rep) {
+				op, obs, _, err, _ := execKeyVerifier(lastPubKey)
+				addCase(c, "verifier/x-between-n-and-p/"+ci.name, op, obs, err == nil)
+				if err != nil {
+					c.Fail("C14/signer-verifier-refused", "Verifier() from a round-tripped valid public key failed: "+err.Error(), rep)
+				}
+			}
+		}
 		found := 0
 		for xv := int64(0); xv < 64 && found < 6; xv++ {
 			x := big.NewInt(xv)
@@ -869,6 +896,20 @@ func c15One(c *Collector, class string, data []byte) {
 		d2 := decodeKind("DKey", d.reenc)
 		if d2.err != nil || d2.reerr != nil || !bytes.Equal(d2.reenc, d.reenc) {
 			c.Fail("C15/reencode-unstable", fmt.Sprintf("re-encoded key %x does not decode to the same canonical bytes (%v)", d.reenc, d2.err), rep)
+		} else if d2.key != nil {
+			// ... and to the same key: it grants what the received key grants, no more (a public point or private
+			// material that was not there is not there afterwards either)
+			cls := func(kk *cose.Key) string {
+				_, e1 := kk.Signer()
+				_, e2 := kk.Verifier()
+				_, e3 := kk.PublicKey()
+				_, e4 := kk.PrivateKey()
+				return fmt.Sprint(e1 == nil, e2 == nil, e3 == nil, e4 == nil)
+			}
+			var a, b string
+			if p, _ := protect(func() { a, b = cls(k), cls(d2.key) }); !p && a != b {
+				c.Fail("C15/reencode-unstable", fmt.Sprintf("the received key grants (signer, verifier, public key, private key) = %s, the key decoded from its re-encoding %x grants %s", a, d.reenc, b), rep)
+			}
 		}
 	}
 	// --- signer / verifier restrictions ---
@@ -1353,6 +1394,69 @@ func runC17(c *Collector, r *Rng, thorough bool) {
 					}
 				}
 			}
+		}
+	}
+	// --- one verifier (and one signer) shared by goroutines that use the message entry point and the digest entry point
+	// at the same time on large contents: the two stay equivalent, every valid signature verifies through both ---
+	for _, k := range realKeySet(r) {
+		if k.alg == cose.AlgorithmEdDSA {
+			continue
+		}
+		sg, vf := k.signer(), k.verifier()
+		dv, ok := vf.(cose.DigestVerifier)
+		if !ok {
+			continue
+		}
+		type item struct{ msg, digest, sig []byte }
+		var items []item
+		for i := 0; i < 3; i++ {
+			msg := r.Bytes(256*1024 + i)
+			sig, err := sg.Sign(r, msg)
+			if err != nil {
+				break
+			}
+			items = append(items, item{msg, digestOf(algHash(k.alg), msg), sig})
+		}
+		if len(items) == 0 {
+			continue
+		}
+		var wg sync.WaitGroup
+		var mu sync.Mutex
+		bad := map[string]int{}
+		for g := 0; g < 12; g++ {
+			wg.Add(1)
+			go func(g int) {
+				defer wg.Done()
+				for rd := 0; rd < 6; rd++ {
+					it := items[(g+rd)%len(items)]
+					var e1, e2 error
+					p, _ := protect(func() { e1 = vf.Verify(it.msg, it.sig); e2 = dv.VerifyDigest(it.digest, it.sig) })
+					if p || e1 != nil || e2 != nil {
+						mu.Lock()
+						bad[fmt.Sprintf("Verify=%v VerifyDigest=%v panicked=%v", e1, e2, p)]++
+						mu.Unlock()
+					}
+				}
+			}(g)
+		}
+		wg.Wait()
+		c.Eval("shared-verifier-both-entry-points/"+k.alg.String(), k.name, true)
+		if len(bad) > 0 {
+			c.Fail("C17/digest-equivalence", fmt.Sprintf("one %v verifier shared by 12 goroutines (256 KiB contents): valid signatures gave %v", k.alg, bad), map[string]any{"alg": k.alg.String(), "key": k.name})
+		}
+	}
+	// --- the signer built over an opaque key offers the digest entry point like the one built over the key itself ---
+	for _, k := range opaqueKeySet(r) {
+		sg := k.signer()
+		c.Eval("opaque-signer-has-digest-entry-point/"+k.alg.String(), k.name, true)
+		ds, ok := sg.(cose.DigestSigner)
+		if !ok {
+			c.Fail("C17/no-digest-interface", fmt.Sprintf("the %v signer built over an opaque crypto.Signer (%T) has no SignDigest: signing a message cannot be compared with signing its digest", k.alg, sg), map[string]any{"alg": k.alg.String(), "key": k.name})
+			continue
+		}
+		msg := r.Bytes(50)
+		if sig, err := ds.SignDigest(r, digestOf(algHash(k.alg), msg)); err != nil || k.verifier().Verify(msg, sig) != nil {
+			c.Fail("C17/digest-equivalence", fmt.Sprintf("SignDigest(H(m)) through an opaque %v key does not verify as a signature of m (%v)", k.alg, err), map[string]any{"alg": k.alg.String(), "key": k.name})
 		}
 	}
 	// --- digest equivalence ---
